@@ -30,26 +30,58 @@ void vf_latch_env(void)
 
 /* ================= Barrier ================= */
 struct Barrier *vf_B;
-unsigned long gb_need;   /* ghost: arrivals required by the current generation */
-unsigned long gb_arr;    /* ghost: arrivals so far in the current generation */
-unsigned long gb_gen;    /* ghost: number of completed generations */
-_Bool gb_completed_by_me;/* ghost: the verified call completed a generation */
-#define B_INV (gb_need >= 1 && gb_need < VF_BIG && gb_arr < gb_need && vf_B->count_ == gb_need - gb_arr && \
-               vf_B->generation_ == gb_gen && vf_B->threshold_ <= gb_need && vf_B->threshold_ < VF_BIG)
-#define B_IDLE (!vf_B->mtx.excl_me && vf_B->mtx.shared_me == 0 && vf_held == 0 && !g_dirty)
-void vf_barrier_env(void)
+/* snapshots of the three monitor fields: at the last release (or initially) and just after the
+   last acquisition (after the environment step).  They make "plain fields are written only
+   inside the critical section" (M3) and the per-critical-section transition checkable. */
+unsigned long gb_snap_c, gb_snap_g, gb_snap_t;
+unsigned long gb_acq_c, gb_acq_g, gb_acq_t;
+int gb_my_arr;                /* ghost: arrivals performed by the verified call */
+unsigned long gb_arrival_gen; /* ghost: generation in which the verified call arrived */
+_Bool gb_completed_by_me;     /* ghost: the verified call completed that generation */
+_Bool gb_drop;                /* ghost: the verified call is wait_and_drop */
+unsigned long gb_notified_g;  /* ghost: value of generation_ when notify_all was last called */
+_Bool gb_notified;
+#define B_FIELDS_EQ(c, g, t) (vf_B->count_ == (c) && vf_B->generation_ == (g) && vf_B->threshold_ == (t))
+#define B_INV (vf_B->count_ >= 1 && vf_B->count_ <= vf_B->threshold_ && vf_B->threshold_ < VF_BIG && vf_B->generation_ < VF_BIG)
+#define B_IDLE (!vf_B->mtx.excl_me && vf_B->mtx.shared_me == 0 && vf_held == 0)
+void vf_barrier_acquired(void)
 {
-  /* rely: other participants arrive / drop under mtx; a generation completes only when all
-     its participants have arrived; generation_ never decreases */
-  unsigned long n_need = vf_nondet_ulong(), n_arr = vf_nondet_ulong(), n_gen = vf_nondet_ulong(), n_thr = vf_nondet_ulong();
-  __CPROVER_assume(n_gen >= gb_gen);
-  __CPROVER_assume(n_need >= 1 && n_need < VF_BIG && n_arr < n_need && n_thr <= n_need);
-  if (n_gen == gb_gen) {
-    /* same generation: arrivals only grow, requirement fixed, threshold only drops */
-    __CPROVER_assume(n_need == gb_need && n_arr >= gb_arr && n_thr <= vf_B->threshold_);
+  __CPROVER_assert(B_FIELDS_EQ(gb_snap_c, gb_snap_g, gb_snap_t),
+                   "[M3] Barrier: count_/generation_/threshold_ written outside the critical section (before acquiring mtx)");
+  /* rely: other participants arrive / drop under mtx obeying the same transition rule:
+     generation_ never decreases; within one generation the requirement is fixed and count_
+     only goes down, threshold_ only goes down */
+  unsigned long n_c = vf_nondet_ulong(), n_g = vf_nondet_ulong(), n_t = vf_nondet_ulong();
+  __CPROVER_assume(n_g >= gb_snap_g && n_g < VF_BIG - 1);   /* assumption: fewer than 10^5 generations */
+  __CPROVER_assume(n_c >= 1 && n_c <= n_t && n_t < VF_BIG);
+  if (n_g == gb_snap_g) __CPROVER_assume(n_c <= gb_snap_c && n_t <= gb_snap_t);
+  vf_B->count_ = n_c; vf_B->generation_ = n_g; vf_B->threshold_ = n_t;
+  gb_acq_c = n_c; gb_acq_g = n_g; gb_acq_t = n_t;
+}
+void vf_barrier_releasing(void)
+{
+  unsigned long c1 = vf_B->count_, g1 = vf_B->generation_, t1 = vf_B->threshold_;
+  if (!(c1 == gb_acq_c && g1 == gb_acq_g && t1 == gb_acq_t)) {
+    /* guarantee: the critical section performed exactly one arrival */
+    _Bool thr_ok = gb_drop ? (t1 + 1 == gb_acq_t) : (t1 == gb_acq_t);
+    _Bool step_a = g1 == gb_acq_g && c1 + 1 == gb_acq_c && c1 >= 1;
+    _Bool step_b = g1 == gb_acq_g + 1 && gb_acq_c == 1 && c1 == t1;
+    __CPROVER_assert(thr_ok, "[C09] Barrier: threshold_ changed by something other than one drop of wait_and_drop");
+    __CPROVER_assert(step_a || step_b,
+                     "[C09] Barrier: critical section is not one arrival (either count_ decremented and still >= 1, or the last "
+                     "arrival: count_ was 1, generation_ advanced by one and count_ reset to the current threshold_)");
+    __CPROVER_assert(gb_my_arr == 0, "[C09] Barrier: more than one arrival in one call");
+    gb_my_arr = 1;
+    gb_arrival_gen = gb_acq_g;
+    if (step_b) {
+      gb_completed_by_me = 1;
+      __CPROVER_assert(gb_notified && gb_notified_g == g1,
+                       "[M4] Barrier: generation_ changed but cv.notify_all was not called afterwards, before the mutex is released");
+    }
   }
-  gb_need = n_need; gb_arr = n_arr; gb_gen = n_gen;
-  vf_B->threshold_ = n_thr; vf_B->count_ = n_need - n_arr; vf_B->generation_ = n_gen;
+  __CPROVER_assert(B_INV || (gb_drop && gb_completed_by_me), "[M1] Barrier: monitor invariant at release");
+  gb_snap_c = c1; gb_snap_g = g1; gb_snap_t = t1;
+  gb_notified = 0;
 }
 
 /* ================= TriggerVariable ================= */
@@ -72,7 +104,7 @@ void vf_trig_env(void)
 void vf_hook_acquired(struct vf_mutex *m)
 {
   if (vf_L && m == &vf_L->mtx) vf_latch_env();
-  if (vf_B && m == &vf_B->mtx) vf_barrier_env();
+  if (vf_B && m == &vf_B->mtx) vf_barrier_acquired();
   if (vf_T && (m == &vf_T->triggerLock || m == &vf_T->activeLock)) vf_trig_env();
 }
 void vf_hook_releasing(struct vf_mutex *m)
@@ -81,10 +113,7 @@ void vf_hook_releasing(struct vf_mutex *m)
     __CPROVER_assert(!g_dirty, "[M4] Latch: the wait predicate became true but notify_all was not called before the mutex is released");
     __CPROVER_assert(L_INV, "[M1] Latch: monitor invariant at release");
   }
-  if (vf_B && m == &vf_B->mtx) {
-    __CPROVER_assert(!g_dirty, "[M4] Barrier: generation changed but notify_all was not called before the mutex is released");
-    __CPROVER_assert(B_INV, "[M1] Barrier: monitor invariant at release");
-  }
+  if (vf_B && m == &vf_B->mtx) vf_barrier_releasing();
   if (vf_T && m == &vf_T->triggerLock)
     __CPROVER_assert(!gt_dirty_trig, "[M4] TriggerVariable: `triggered` became true but cv_trigger.notify_all was not called before triggerLock is released");
   if (vf_T && m == &vf_T->activeLock)
@@ -120,7 +149,7 @@ void vf_hook_atomic_write(void *a, long o, long n)
 void vf_hook_notify(struct vf_cv *c, int all)
 {
   if (vf_L && c == &vf_L->cv && all) g_dirty = 0;
-  if (vf_B && c == &vf_B->cv && all) g_dirty = 0;
+  if (vf_B && c == &vf_B->cv && all) { gb_notified = 1; gb_notified_g = vf_B->generation_; }
   if (vf_T && c == &vf_T->cv_trigger && all) gt_dirty_trig = 0;
   if (vf_T && c == &vf_T->cv_active && all) gt_dirty_act = 0;
 }
@@ -186,4 +215,33 @@ FN = {
         ensures=[('C10', 'L_INV && L_IDLE && g_arr >= g_init && g_my_arr == __CPROVER_old(g_my_arr) + 1 && !vf_exc',
                   'one arrival, then returns only when the count is reached')],
         assigns='*self, ' + LATCH_G),
+
+    # ---------------------------------------------------------------- Barrier (C09)
+    r'Barrier::(wait|wait_and_drop)': dict(
+        props='C09',
+        setup='vf_B = self; vf_L = 0; vf_T = 0; gb_drop = %DROP%;',
+        requires=['vf_B == self && vf_L == 0 && vf_T == 0 && B_INV && B_IDLE && !vf_exc && gb_my_arr == 0 && !gb_completed_by_me && !gb_notified'
+                  ' && B_FIELDS_EQ(gb_snap_c, gb_snap_g, gb_snap_t) && self->generation_ < VF_BIG - 2 && gb_drop == %DROP%'],
+        ensures=[('C09', 'B_IDLE && !vf_exc', 'mutex released'),
+                 ('C09', 'gb_my_arr == 1', 'the call performed exactly one arrival (checked transition, see model assertion)'),
+                 ('C09', 'B_FIELDS_EQ(gb_snap_c, gb_snap_g, gb_snap_t)', 'M3: no write to count_/generation_/threshold_ after the last release'),
+                 ('C09', 'self->generation_ > gb_arrival_gen', 'returns only after the generation of its own arrival has completed'),
+                 ],
+        assigns='*self, gb_snap_c, gb_snap_g, gb_snap_t, gb_acq_c, gb_acq_g, gb_acq_t, gb_my_arr, gb_arrival_gen, gb_completed_by_me, gb_notified_g, gb_notified, ' + GHOST_ASSIGNS,
+        loops={0: dict(
+            invariant=[('C09', 'lck.owns && lck.m == &self->mtx && self->mtx.excl_me && vf_held == 1 && !vf_exc && !gb_completed_by_me && '
+                               'vf_n_block >= 0 && vf_n_block <= VF_BIG && vf_n_cvwait >= 0 && vf_n_cvwait <= VF_BIG && vf_n_mutex_ops >= 0 && vf_n_mutex_ops <= VF_BIG && '
+                               'gb_acq_g < VF_BIG - 1 && '
+                               '((gb_my_arr == 0 && gb_acq_g == lGen && self->generation_ == lGen && self->count_ + 1 == gb_acq_c && self->count_ >= 1 && self->count_ <= self->threshold_ && '
+                               '  self->threshold_ + (gb_drop ? 1 : 0) == gb_acq_t && self->threshold_ >= 1 && gb_acq_t < VF_BIG && gb_acq_c <= gb_acq_t && gb_acq_c >= 1 && !gb_notified) || '
+                               ' (gb_my_arr == 1 && gb_arrival_gen == lGen && B_FIELDS_EQ(gb_acq_c, gb_acq_g, gb_acq_t) && gb_acq_g >= lGen && B_INV && !gb_notified))',
+                        'predicate loop: either my arrival is still inside its critical section, or it has been released and only the environment moved since')],
+            assigns='self->count_, self->generation_, self->threshold_, self->mtx.excl_me, gb_snap_c, gb_snap_g, gb_snap_t, gb_acq_c, gb_acq_g, gb_acq_t, gb_my_arr, gb_arrival_gen, gb_notified, gb_notified_g, vf_n_block, vf_n_cvwait, vf_n_mutex_ops')}),
 }
+
+_b = FN.pop(r'Barrier::(wait|wait_and_drop)')
+for _nm, _dv in (('wait', '0'), ('wait_and_drop', '1')):
+    _e = dict(_b)
+    _e['setup'] = _b['setup'].replace('%DROP%', _dv)
+    _e['requires'] = [r.replace('%DROP%', _dv) for r in _b['requires']]
+    FN['Barrier::' + _nm] = _e
